@@ -72,7 +72,11 @@ def evaluate(prop, sc, want_trace=False):
         else:
             V += an.check_sync_nodes() + an.check_md_shape() + an.check_edges() + an.check_async_nodes()
     elif prop == 'C13':
-        V += an.check_async_nodes() + an.check_rate_limit()
+        if (sc.get('faults') or {}).get('fail'):
+            # a consumer below the rate_limit raised: only the distance between deliveries is judged
+            V += an.check_rate_limit()
+        else:
+            V += an.check_async_nodes() + an.check_rate_limit()
     elif prop == 'C14':
         V += an.check_async_nodes()
     elif prop == 'C16':
